@@ -196,6 +196,24 @@ pub fn run_streams(
     to: u64,
     deadline: Option<Instant>,
 ) -> Agg {
+    run_streams_with(
+        prop.id(),
+        ctx,
+        from,
+        to,
+        deadline,
+        &|i, rng, screen| prop.scenario(ctx, i, rng, screen),
+    )
+}
+
+pub fn run_streams_with(
+    label: &str,
+    ctx: &Ctx,
+    from: u64,
+    to: u64,
+    deadline: Option<Instant>,
+    f: &(dyn Fn(u64, &mut Rng, &mut Screen) -> ScnResult + Sync),
+) -> Agg {
     let next = AtomicU64::new(from);
     let stop = AtomicBool::new(false);
     let results: Mutex<Vec<(u64, ScnResult)>> = Mutex::new(vec![]);
@@ -222,8 +240,8 @@ pub fn run_streams(
                                 break;
                             }
                         }
-                        let mut rng = Rng::new(stream_seed(ctx.seed, prop.id(), i));
-                        let r = prop.scenario(ctx, i, &mut rng, &mut screen);
+                        let mut rng = Rng::new(stream_seed(ctx.seed, label, i));
+                        let r = f(i, &mut rng, &mut screen);
                         local.push((i, r));
                         if local.len() >= 64 {
                             results.lock().unwrap().append(&mut local);
@@ -307,19 +325,36 @@ pub fn envelope(prop: &str, seed: u64, index: u64, v: &Violation) -> Value {
     })
 }
 
+/// Execute a stored scenario with the engine it belongs to.
+pub fn replay_any(prop: &dyn Property, ctx: &Ctx, scn: &Value) -> Result<Option<Violation>, String> {
+    if scn["engine"].as_str() == Some("simbin") {
+        crate::simbin::replay(prop.id(), ctx, scn)
+    } else {
+        prop.replay(ctx, scn)
+    }
+}
+
+pub fn shrink_any(prop: &dyn Property, ctx: &Ctx, scn: &Value) -> Vec<Value> {
+    if scn["engine"].as_str() == Some("simbin") {
+        crate::simbin::shrink(scn)
+    } else {
+        prop.shrink(ctx, scn)
+    }
+}
+
 /// Greedy delta debugging: keep applying the first shrink candidate that still violates the same
 /// clause. Bounded number of re-executions.
 pub fn minimise(prop: &dyn Property, ctx: &Ctx, v: Violation, max_execs: usize) -> (Violation, usize) {
     let mut cur = v;
     let mut execs = 0usize;
     'outer: loop {
-        let cands = prop.shrink(ctx, &cur.replay);
+        let cands = shrink_any(prop, ctx, &cur.replay);
         for c in cands {
             if execs >= max_execs {
                 break 'outer;
             }
             execs += 1;
-            if let Ok(Some(nv)) = prop.replay(ctx, &c) {
+            if let Ok(Some(nv)) = replay_any(prop, ctx, &c) {
                 if nv.clause == cur.clause {
                     cur = nv;
                     continue 'outer;
@@ -386,6 +421,39 @@ pub fn check(prop: &dyn Property, ctx: &Ctx) -> CheckOutcome {
     }
 
     let mut agg = run_streams(prop, ctx, 0, budget, deadline);
+    let mut engines = vec!["simproc".to_string()];
+    let bin_budget = crate::simbin::budget(id, ctx.tier == Tier::Thorough);
+    match crate::simbin::bin_path() {
+        Some(bin) if bin_budget > 0 => {
+            let label = format!("{}-simbin", id);
+            let pid = id.to_string();
+            let b = run_streams_with(&label, ctx, 0, bin_budget, deadline, &|_i, rng, screen| {
+                crate::simbin::scenario(&pid, ctx, &bin, rng, screen).unwrap_or_default()
+            });
+            engines.push("simbin".to_string());
+            // merge
+            agg.evaluations += b.evaluations;
+            agg.steps += b.steps;
+            agg.nontrivial.extend(b.nontrivial);
+            agg.interleavings.extend(b.interleavings);
+            agg.states.extend(b.states);
+            for (k, v) in b.faults {
+                *agg.faults.entry(k).or_insert(0) += v;
+            }
+            for (k, v) in b.extra {
+                *agg.extra.entry(k).or_insert(0) += v;
+            }
+            for (i, v) in b.violations {
+                agg.violations.push((1_000_000_000 + i, v));
+            }
+            agg.harness_errors.extend(b.harness_errors);
+        }
+        _ => {
+            if bin_budget > 0 {
+                say!("[{}] note: SOLSTAT_BIN not set, the simbin engine is skipped", id);
+            }
+        }
+    }
     let mut exhaustive = false;
     {
         let mut screen = Screen::new();
@@ -538,7 +606,7 @@ pub fn check(prop: &dyn Property, ctx: &Ctx) -> CheckOutcome {
     });
     let ev_path = format!("{}/evidence/{}.json", ctx.verif_root, id);
     let _ = std::fs::create_dir_all(format!("{}/evidence", ctx.verif_root));
-    merge_and_write_evidence(&ev_path, evidence, "simproc");
+    write_evidence(&ev_path, evidence, &engines);
 
     say!(
         "[{}] {} scenario streams, {} simulated runs, {} steps, {} distinct non-trivial, {} distinct interleavings, {:.1}s ({} runs/h)",
@@ -573,11 +641,9 @@ pub fn check(prop: &dyn Property, ctx: &Ctx) -> CheckOutcome {
     CheckOutcome { exit_code: 0 }
 }
 
-/// Evidence is written by the first engine and extended by later ones (simbin, simmiri) of the
-/// same check invocation: counts add up, engine-specific sections go under `engines`.
-pub fn merge_and_write_evidence(path: &str, ev: Value, engine: &str) {
+pub fn write_evidence(path: &str, ev: Value, engines: &[String]) {
     let mut out = ev;
-    out["coverage"]["engines_run"] = json!([engine]);
+    out["coverage"]["engines_run"] = json!(engines);
     let s = serde_json::to_string_pretty(&out).unwrap();
     if let Err(e) = std::fs::write(path, s) {
         say!("HARNESS: cannot write evidence {}: {}", path, e);
@@ -629,7 +695,7 @@ pub fn replay_file(props: &[&dyn Property], ctx: &Ctx, path: &str) -> i32 {
             return 2;
         }
     };
-    match prop.replay(ctx, &v["scenario"]) {
+    match replay_any(prop, ctx, &v["scenario"]) {
         Err(e) => {
             say!("HARNESS: cannot execute replay: {}", e);
             2
